@@ -1,7 +1,100 @@
 import Gossamer.Base.Proto
 import Gossamer.Lib.Blake2b
 import Gossamer.Model.C06
+import Gossamer.Lib.C06Nibbles
 open Gossamer Gossamer.C06
+
+/-! ### direct calls of the packed-nibble helpers (`nib …` lines) -/
+namespace NibDrv
+open Gossamer.C06.Nb
+
+def num? (s : String) : Option Nat := s.toNat?
+
+def showNK (k : NK) : String := toString k.offset ++ " " ++ hex k.data
+
+def showPad : Option UInt8 → String
+  | some b => toHex [b]
+  | none => "-"
+
+def showPfx (p : PFX) : String := hex p.key ++ "," ++ showPad p.padded ++ "," ++ hex p.joined
+
+def b01 (b : Bool) : String := if b then "1" else "0"
+
+def pn? (d o : String) : Option PN :=
+  match ofHex? d, num? o with
+  | some d, some o => some { data := d, offset := o }
+  | _, _ => none
+
+def showNS (n : NS) : String :=
+  (if n.len = 0 then "1" else "0") ++ "/" ++ hex n.pfx.key ++ "/" ++ showPad n.pfx.padded
+
+def nsOp (n : NS) (op : String) : Option (NS × List String) :=
+  match op.splitOn ":" with
+  | ["p", v] => (num? v).map (fun v => let n' := n.push (UInt8.ofNat v); (n', [showNS n']))
+  | ["pop"] => let n' := n.pop; some (n', [showNS n'])
+  | ["app", d, o] => (pn? d o).map (fun s => let n' := n.appendPartial s.rightPartial; (n', [showNS n']))
+  | ["aos", d, o, ix] =>
+    let slice : Option (Option PN) := if d == "x" then some none else (pn? d o).map some
+    let index : Option (Option UInt8) := if ix == "x" then some none else (num? ix).map (fun v => some (UInt8.ofNat v))
+    match slice, index with
+    | some sl, some ix => let r := n.appendOpt sl ix; some (r.1, [toString r.2, showNS r.1])
+    | _, _ => none
+  | ["drop", k] => (num? k).map (fun k => let n' := n.dropLasts k; (n', [showNS n']))
+  | _ => none
+
+def nsRun (ops : List String) : Option (List String) :=
+  (ops.foldl (fun acc op => acc.bind (fun (st : NS × List String) =>
+    (nsOp st.1 op).map (fun r => (r.1, st.2 ++ r.2)))) (some (NS.empty, []))).map (·.2)
+
+def step (f : List String) : String :=
+  match f with
+  | ["nib", "at", d, o, i] =>
+    (match pn? d o, num? i with | some n, some i => toString (n.nib i).toNat | _, _ => "bad-op")
+  | ["nib", "len", d, o] => (match pn? d o with | some n => toString n.len | none => "bad-op")
+  | ["nib", "mid", d, o, i] =>
+    (match pn? d o, num? i with
+      | some n, some i => let m := n.mid i; showNK m.nodeKey ++ " " ++ toString m.len
+      | _, _ => "bad-op")
+  | ["nib", "adv", d, o, i] =>
+    (match pn? d o, num? i with
+      | some n, some i =>
+        (match n.advance i with | some m => showNK m.nodeKey ++ " " ++ toString m.len | none => "panic")
+      | _, _ => "bad-op")
+  | ["nib", "left", d, o] => (match pn? d o with | some n => showPfx n.left | none => "bad-op")
+  | ["nib", "cp", d1, o1, d2, o2] =>
+    (match pn? d1 o1, pn? d2 o2 with
+      | some a, some b =>
+        toString (a.commonPrefix b) ++ " " ++ b01 (a.startsWith b) ++ " " ++ b01 (a.equal b) ++ " " ++
+          toString (a.compare b)
+      | _, _ => "bad-op")
+  | ["nib", "nk", d, o] =>
+    (match pn? d o with
+      | some n => showNK n.nodeKey ++ " " ++ toString (PN.ofNodeKey n.nodeKey).len
+      | none => "bad-op")
+  | ["nib", "nkr", d, o, nb] =>
+    (match pn? d o, num? nb with | some n, some nb => showNK (n.nodeKeyRange nb) | _, _ => "bad-op")
+  | ["nib", "right", d, o] =>
+    (match pn? d o with
+      | some n =>
+        let p := n.rightPartial
+        hex n.right ++ " " ++ toString p.first ++ " " ++ toHex [p.paddedNibble] ++ " " ++ hex p.data
+      | none => "bad-op")
+  | ["nib", "shift", off, d, no] =>
+    (match num? off, ofHex? d, num? no with
+      | some off, some d, some no =>
+        let r := NK.shiftKey { offset := off, data := d } no
+        showNK r.1 ++ " " ++ (if r.2 then "true" else "false")
+      | _, _, _ => "bad-op")
+  | ["nib", "comb", o1, d1, o2, d2] =>
+    (match num? o1, ofHex? d1, num? o2, ofHex? d2 with
+      | some o1, some d1, some o2, some d2 =>
+        showNK (combineKey { offset := o1, data := d1 } { offset := o2, data := d2 })
+      | _, _, _, _ => "bad-op")
+  | ["nib", "ns", ops] =>
+    (match nsRun (ops.splitOn ",") with | some outs => joinWith "," outs | none => "bad-op")
+  | _ => "bad-op"
+
+end NibDrv
 
 /- line:   `ver|op;op;…`  (put k v | del k | get k | commit | reopen), or `const <name>`
    output: per-op observables `;`-joined and the final `F=<root>,eq,<gets on a fresh instance>`.
@@ -10,6 +103,7 @@ open Gossamer Gossamer.C06
 def step (line : String) : String :=
   if line == "const V1MaxInlineValueSize" then toString v1MaxInline
   else if line == "const HashLength" then toString hashLen
+  else if line.startsWith "nib " then NibDrv.step (words line)
   else
   match parseLine line with
   | none => "bad-op"
